@@ -3,6 +3,7 @@
 From Coq Require Import List NArith ZArith String Bool.
 Import ListNotations.
 Require Import TL.Model.Inspect TL.Model.Dispatch.
+Require TL.Model.Core TL.Model.Build.
 
 (* what was seen: the class of the routine instance; an exception that escaped from a handler
    predicate; nothing comparable (the factory raised somewhere else: graph, routine constructor) *)
@@ -37,3 +38,66 @@ Fixpoint mismatches_from (D : dtables) (root : bool) (cs : list dcase) (i : nat)
 Definition mismatches (D : dtables) (root : bool) (cs : list dcase) := mismatches_from D root cs 0.
 (* for diagnostics *)
 Definition model_says (D : dtables) (root : bool) (t : ity) := (model_u D root t, model_m D root t).
+
+(* the conclusion of the dispatch theorems read directly against the observation: inside the supported grammar the
+   observed classes are the classes of the head kind *)
+Definition spec_says (D : dtables) (root : bool) (t : ity) : option (string * string) :=
+  let t' := if root then normalize_typevar t else t in
+  if supported D t' && negb (is_typevar t') then
+    match kind_of (d_tbl D) (peel t') with Some k => Some (expected_u k, expected_m k) | None => None end
+  else None.
+Definition cls_ok (e : string) (o : dobs) : bool :=
+  match o with OCls s => String.eqb e s | OSkip => true | ORaised => false end.
+(* (number of cases inside the supported grammar, indexes of those whose observation differs) in one pass *)
+Fixpoint spec_report_from (D : dtables) (root : bool) (cs : list dcase) (i : nat) : nat * list nat :=
+  match cs with
+  | [] => (0, [])
+  | (t, ou, om) :: r =>
+      let (n, bad) := spec_report_from D root r (S i) in
+      match spec_says D root t with
+      | Some (eu, em) => (S n, if cls_ok eu ou && cls_ok em om then bad else i :: bad)
+      | None => (n, bad)
+      end
+  end.
+Definition spec_report (D : dtables) (root : bool) (cs : list dcase) := spec_report_from D root cs 0.
+
+(* ------------------------------------------------------------------ one annotation, two descriptions *)
+(* The core harness (universe.py) describes an annotation as a Core.ty; the catalogue of C17 describes the same
+   Python object as an ity.  Build.construct chooses its case by the constructor of the (unwrapped) ty; the code
+   chooses the routine class by dispatch.  [heads_agree]: the case Build.construct takes is the one the head kind of
+   the ity stands for (and the ity is inside the supported grammar, so that the dispatch theorems apply). *)
+Definition ty_bhead (E : Core.env) (u : Core.ty) : option bhead :=
+  match u with
+  | Core.TLeaf _ => Some BLeaf
+  | Core.TNone => Some BNone
+  | Core.TSeq _ _ => Some BSeq
+  | Core.TMap _ _ _ => Some BMap
+  | Core.TTuple _ => Some BTuple
+  | Core.TUnion _ => Some BUnion
+  | Core.TName c => match E c with Some (Core.NClass _) => Some BStruct | _ => None end
+  | Core.TRef _ | Core.TRefLeaf _ | Core.TRefTo _ | Core.TAliasStr _ _ => Some BDelayed
+  | _ => None
+  end.
+Definition routine_bhead (r : Build.routine) : bhead :=
+  match r with
+  | Build.RLeaf _ => BLeaf | Build.RNone => BNone | Build.RNoOp => BNoOp | Build.RSeq _ _ => BSeq
+  | Build.RMap _ _ _ => BMap | Build.RTuple _ => BTuple | Build.RUnion _ _ => BUnion
+  | Build.RStruct _ _ => BStruct | Build.RDelayed _ => BDelayed
+  end.
+Definition bhead_eqb (a b : bhead) : bool :=
+  match a, b with
+  | BLeaf, BLeaf | BNone, BNone | BNoOp, BNoOp | BSeq, BSeq | BMap, BMap | BTuple, BTuple | BUnion, BUnion
+  | BStruct, BStruct | BDelayed, BDelayed => true
+  | _, _ => false
+  end.
+(* 0 = agree; 1 = the ity is outside the supported grammar; 2 = the ty has no constructor case; 3 = different heads *)
+Definition heads_agree (D : dtables) (E : Core.env) (t : ity) (tau : Core.ty) : nat :=
+  if negb (supported D t && negb (is_typevar t)) then 1
+  else match kind_of (d_tbl D) (peel t), ty_bhead E (Build.unwrap tau) with
+       | Some k, Some h => if bhead_eqb (build_head k) h then 0 else 3
+       | None, _ => 1
+       | _, None => 2
+       end.
+Definition head_case := (ity * Core.ty)%type.
+Definition head_report (D : dtables) (E : Core.env) (cs : list head_case) : list nat :=
+  map (fun c => heads_agree D E (fst c) (snd c)) cs.
